@@ -1,0 +1,15 @@
+//go:build verif
+
+package parser
+
+import "bufio"
+
+// VerifChunk, when set by a verification driver, receives every chunk of input the
+// scanner hands to the field parser. It is only compiled with the verif build tag.
+var VerifChunk func(text string)
+
+func verifChunk(sc *bufio.Scanner) {
+	if h := VerifChunk; h != nil {
+		h(sc.Text())
+	}
+}
